@@ -3,11 +3,13 @@
 SPECIFICATION MCSpec
 CONSTANTS
   CacheMerged = FALSE
+  OwnUnion = TRUE
   MaxRewrites = 1
   MaxNodes = 2
   CPUs = {0, 1}
   LimitVals = {1, 2, 99}
   Kinds = {"cpuset", "limit"}
+  Algos = {"leveled"}
   CacheMode = "cold"
 INVARIANT V
 INVARIANT TNAtEnd
